@@ -277,9 +277,9 @@ func (g *gen) dkgScenario(t, n int, faulty bool, exhaustive bool) {
 	}
 	// faulty recoveries: duplicate id, mismatched lengths, share on another message mixed in
 	if n >= 2 {
-		g.sig("recover %d,%d 0,0", sigOf["a"][0], sigOf["a"][0])
-		g.sig("recover %d 0,1", sigOf["a"][0])
-		g.sig("recover - -")
+		g.add("recover %d,%d 0,0", sigOf["a"][0], sigOf["a"][0]) // errors: no signature register is consumed
+		g.add("recover %d 0,1", sigOf["a"][0])
+		g.add("recover - -")
 		p := r.Perm(n)
 		ss := make([]int, n)
 		for x, k := range p {
@@ -380,8 +380,8 @@ func (g *gen) clientScenario(t, n int, exhaustive bool) {
 			}
 		}
 	}
-	g.sig("reconstruct 0:%d,0:%d", ts[0], ts[0]) // duplicate id
-	g.sig("reconstruct -")
+	g.add("reconstruct 0:%d,0:%d", ts[0], ts[0]) // duplicate id: error, no register consumed
+	g.add("reconstruct -")
 	// split keys
 	ns := 1 + r.Intn(5)
 	ks := make([]string, ns-1)
